@@ -47,5 +47,14 @@ CHECKS["C17"] = {
     "quick": {"checks": 700, "timeout": 900},
     "thorough": {"checks": 12000, "timeout": 3400, "shards": 8},
 }
+CHECKS["C01"] = {
+    "pkg": "./props/c01",
+    "level": "exploration",
+    "technique": "property-based testing (rapid): generated artefacts x key x digest x flags x pipeline, oracle = support table + relic verifier + identity/digest of the accepted signature",
+    "level_text": "For each of 17 package types an input is drawn (by-construction generators for PE, MSI/CFB, JAR/ZIP, PowerShell family and PGP payloads; repository fixtures for the rest), then key (RSA-2048/3072, P-256/384/521), digest (SHA-1..SHA-512), signer flags, pipeline (library call sequence of the sign command; real daemon over TLS + remote client; the relic binary), output path mode and optional pre-signing. Supported combinations must sign and verify under relic's verifier with digests and chain checking on, naming the configured leaf (or PGP key) and the requested digest; unsupported ones must fail with an explicit error, leave the input byte-identical and leave no output or temporary file.",
+    "level_note": "Support table written from README/doc (three-valued); file token only. Inputs for cab/cat/xap/vsix/appx/apk/dmg/pkg/mach-o/rpm/deb/appmanifest are the repository fixtures (no generator), so the input quantifier is only sampled there.",
+    "quick": {"checks": 120, "timeout": 1200},
+    "thorough": {"checks": 1500, "timeout": 3400, "shards": 8},
+}
 for _pid in CHECKS:
     NOT_APPLICABLE.pop(_pid, None)
